@@ -88,6 +88,17 @@ def evaluate(case: Dict[str, Any]) -> Dict[str, Any]:
         # decision of the line search (another branch of the step selection) and the iterates then part for good: the package
         # run from a start moved by a few ulps is compared with the package run itself
         unstable = False
+        # the iterate before agreed to the tolerance — but does it touch the same bounds, bit for bit? A variable exactly on its bound
+        # in one run and one unit in the last place inside in the other (the dense solves of the model and the triangular solves of
+        # the code round differently) changes the largest feasible step of the next line search from "far" to 1: the runs then part
+        if i >= 1:
+            on_a = (its[i - 1] == lb) | (its[i - 1] == ub)
+            on_b = (xs[i - 1] == lb) | (xs[i - 1] == ub)
+            if bool((on_a != on_b).any()):
+                out["tags"].append("bound-contact-differs-in-the-last-bit")
+                out["skipped"] = "unstable-trajectory"
+                out["corr"] = None
+                return out
         for t in range(4):
             xp = x0.copy()
             for j in range(len(xp)):
@@ -107,6 +118,36 @@ def evaluate(case: Dict[str, Any]) -> Dict[str, Any]:
             if len(ys) <= i or float(np.max(np.abs(ys[i] - xs[i]) / (1.0 + np.abs(xs[i])))) > tol:
                 unstable = True
                 break
+        # ... and with the VALUES of the objective and gradient moved by one unit in the last place (the transcendental benchmarks go
+        # through libm in the Lean driver and through NumPy's own kernels in the package: exp/cos/sqrt may differ in the last bit)
+        if not unstable:
+            f0, g0 = getattr(lbfgsb, name), getattr(lbfgsb, name + "_grad")
+            for t in range(6):
+                cnt = {"n": 0}
+
+                def fp(x, t=t):
+                    cnt["n"] += 1
+                    v = float(f0(x))
+                    return float(np.nextafter(v, np.inf if (cnt["n"] + t) % 2 == 0 else -np.inf)) if (cnt["n"] + t) % 3 else v
+
+                def gp(x, t=t):
+                    gv = np.array(g0(x), dtype=float, copy=True)
+                    for j in range(gv.size):
+                        if (j + cnt["n"] + t) % 2 == 0:
+                            gv[j] = np.nextafter(gv[j], np.inf if (j + t) % 4 < 2 else -np.inf)
+                    return gv
+                ys = []
+                with np.errstate(all="ignore"):
+                    try:
+                        minimize_lbfgsb(x0=x0.copy(), fun=fp, jac=gp if jac == "callable" else (None if jac == "none" else jac),
+                                        bounds=np.array(list(zip(lb, ub))), maxcor=case["maxcor"], maxiter=case["maxiter"], maxfun=1000,
+                                        maxls=case["maxls"], ftol=case["ftol"], gtol=case["gtol"],
+                                        callback=lambda xk, st: ys.append(np.array(xk, copy=True)) or False)
+                    except Exception:
+                        continue
+                if len(ys) <= i or float(np.max(np.abs(ys[i] - xs[i]) / (1.0 + np.abs(xs[i])))) > tol:
+                    unstable = True
+                    break
         if unstable:
             out["tags"].append("unstable-trajectory")
             out["skipped"] = "unstable-trajectory"
